@@ -278,9 +278,9 @@ func families(tier string) []*core.Family {
 	var fcs []fc
 	if tier == "thorough" {
 		fcs = []fc{
-			{cfg{names: []string{"A", "B"}, depth: 4, bound: 3, prefix: 2, maxExec: 50000}, 900},
-			{cfg{names: []string{"A", "B", "C"}, depth: 5, bound: 1, prefix: 2, maxExec: 50000}, 900},
-			{cfg{names: []string{"A", "B", "C"}, depth: 6, bound: 0, prefix: 3, maxExec: 50000}, 600},
+			{cfg{names: []string{"A", "B"}, depth: 4, bound: 3, prefix: 2, maxExec: 50000}, 480},
+			{cfg{names: []string{"A", "B", "C"}, depth: 5, bound: 1, prefix: 2, maxExec: 50000}, 480},
+			{cfg{names: []string{"A", "B", "C"}, depth: 6, bound: 0, prefix: 3, maxExec: 50000}, 240},
 		}
 	} else {
 		fcs = []fc{
@@ -293,7 +293,7 @@ func families(tier string) []*core.Family {
 		out = append(out, family(f.c, f.budget))
 	}
 	if tier == "thorough" {
-		out = append(out, refFamily([]string{"A", "B", "C"}, 7, 3, 900))
+		out = append(out, refFamily([]string{"A", "B", "C"}, 7, 3, 480))
 	} else {
 		out = append(out, refFamily([]string{"A", "B"}, 5, 2, 120))
 	}
